@@ -6,7 +6,10 @@ accumulating blocking clauses) in two stages: skeletons (parent/kind arrays) are
 initial/memory choices and transitions are enumerated per skeleton inside the workers.
 Charts are then built through the real public model API of /repo.
 """
-import z3
+try:   # concrete replays run without z3
+    import z3
+except Exception:   # pragma: no cover
+    z3 = None
 
 BASIC, COMPOUND, ORTH, FINAL, SH, DH = range(6)
 KIND_NAMES = ['basic', 'compound', 'orthogonal', 'final', 'shallow', 'deep']
